@@ -96,6 +96,10 @@ func (svr *TrustVectorServer) Update(
 				return fmt.Errorf("invalid truster %#v: %w",
 					entry.Trustee, err1)
 			}
+			if i < 0 {
+				return status.Errorf(codes.InvalidArgument,
+					"negative index in entry %#v", entry.Trustee)
+			}
 			entries = append(entries, sparse.Entry{
 				Index: i,
 				Value: entry.Value,
